@@ -2,6 +2,7 @@ import MW.Inv.GReach
 import MW.Chain.World
 import MW.Inv.WorldInv
 import MW.Inv.Demo
+import MW.Inv.WorldStake
 /-!
 # C03 — LST supply integrity and exact delivery of minted tokens
 -/
@@ -138,6 +139,35 @@ theorem unstake_grows_pending (s s' : CState) (env : Env) (info : Info) (a : Nat
   subst hs'
   exact ⟨b, grown b a (findReq s.reqs s.pendingId info.sender).isNone, hb, by simp [AMap.find?_insert], rfl, ho⟩
 
+/-- **exact delivery, on the chain model's own ledgers.**  A committed `LiquidStake` transaction (sender
+and recipient other than the contract; the two denoms distinct, as they are in every reachable
+configuration) raises the LST supply by the minted amount `m ≠ 0` and
+
+* with a protocol-chain recipient: raises the recipient's bank balance of LST by exactly `m` and
+  changes no other account's LST balance (the contract's own included);
+* with a native-chain recipient: changes no bank balance of LST and leaves a pending IBC packet that
+  carries exactly `m` LST from the contract to the recipient
+
+— to the chosen recipient and to nobody else, for every state, amount, rate, fault assignment and
+configuration. -/
+theorem C03_delivery_world {w : World} {sender : String} {funds : List Coin} {mt : Option String} {tn : Option Bool}
+    {ex : Option Nat} {f : Faults} {txi : Option Nat} (hs : sender ≠ w.self) (hr : mt.getD sender ≠ w.self)
+    (hXD : w.c.config.proto.ibcDenom ≠ w.c.config.lstDenom)
+    (hc : (step w (.exec sender funds (.liquidStake mt tn ex) f txi)).committed = true) :
+    ∃ m, m ≠ 0
+      ∧ (step w (.exec sender funds (.liquidStake mt tn ex) f txi)).w.supply w.c.config.lstDenom = w.supply w.c.config.lstDenom + m
+      ∧ ((deliverOnProtocol w.c.config (mt.getD sender) tn = true
+           ∧ (step w (.exec sender funds (.liquidStake mt tn ex) f txi)).w.bal (mt.getD sender) w.c.config.lstDenom
+               = w.bal (mt.getD sender) w.c.config.lstDenom + m
+           ∧ ∀ acct, acct ≠ mt.getD sender →
+               (step w (.exec sender funds (.liquidStake mt tn ex) f txi)).w.bal acct w.c.config.lstDenom = w.bal acct w.c.config.lstDenom)
+        ∨ (deliverOnProtocol w.c.config (mt.getD sender) tn = false
+           ∧ (∀ acct, (step w (.exec sender funds (.liquidStake mt tn ex) f txi)).w.bal acct w.c.config.lstDenom
+                        = w.bal acct w.c.config.lstDenom)
+           ∧ ChainPkt.mk (w.nextSeq + 1) w.c.config.proto.channel w.self (mt.getD sender) ⟨w.c.config.lstDenom, m⟩ .pending
+               ∈ (step w (.exec sender funds (.liquidStake mt tn ex) f txi)).w.pkts)) :=
+  stake_tx_delivers hs hr hXD hc
+
 /-! ### a concrete history that meets the hypotheses (non-vacuity; evaluated, not proved)
 
 boot → resume → stake (protocol recipient) → stake (native recipient: LST leaves by IBC) →
@@ -149,6 +179,15 @@ open MW.Chain.Demo
 #guard (demoBoot.map fun w => allOKb w demoEvents1) == some true
 #guard (demoBoot.map fun w => let r := runW w {} demoEvents1; (summary r.1 r.2).take 7)
   == some [1507, 3000, 3000, 500, 1000, 7, 4]
+-- non-vacuity of `C03_delivery_world`: the two stakes of the demo history commit; the first raises the
+-- user's LST balance from 0 to 2000, the second leaves it there and creates packet 3 with 1000 LST for
+-- the native-chain recipient
+#guard (demoBoot.map fun w =>
+    let r2 := runW w {} (demoEvents1.take 3)
+    let r3 := runW w {} (demoEvents1.take 4)
+    (r2.1.bal demoUser demoX, r3.1.bal demoUser demoX, r3.1.supply demoX,
+     (r3.1.pkts.filter (fun p => p.coin.denom == demoX)).map (fun p => (p.seq, p.receiver == demoNativeUser, p.coin.amount))))
+  == some (2000, 2000, 3000, [(3, true, 1000)])
 end Demo
 
 /-- regression witness for the defect fixed in /repo (ce795a0): at totals 2000/1000 a stake of 1001
